@@ -15,15 +15,18 @@ cp $SRC/patch.diff $OUT/patch.diff
 cp $SRC/demo_test.go $OUT/demo_test.go
 cp $SRC/README.md $OUT/README.agent.md 2>/dev/null
 cp $SRC/demo_test.go $WT/$DEST
-R0=$(cd $WT && go test -vet=off -count=1 -run "$RUN" ./$PKG/ 2>&1 | tail -3)
+OV=""
+if [ "${KIT:-0}" = "1" ]; then python3 /verif/tools/buildkit/mkoverlay.py $WT >/dev/null && OV="-overlay $WT/.overlay/overlay.json"; fi
+R0=$(cd $WT && go test -vet=off -count=1 $OV -run "$RUN" ./$PKG/ 2>&1 | tail -3)
 echo "$R0" | grep -q "^ok" && D0=pass || D0=fail
 if ! git -C $WT apply $OUT/patch.diff; then echo "$NAME: PATCH DOES NOT APPLY"; exit 2; fi
-R1=$(cd $WT && go test -vet=off -count=1 -run "$RUN" ./$PKG/ 2>&1 | tail -3)
+if [ "${KIT:-0}" = "1" ]; then python3 /verif/tools/buildkit/mkoverlay.py $WT >/dev/null; fi
+R1=$(cd $WT && go test -vet=off -count=1 $OV -run "$RUN" ./$PKG/ 2>&1 | tail -3)
 echo "$R1" | grep -q "^ok" && D1=pass || D1=fail
 rm -f $WT/$DEST
-R2=$(cd $WT && go test -vet=off -count=1 ./$PKG/ 2>&1 | tail -2)
+R2=$(cd $WT && go test -vet=off -count=1 $OV ${SKIP:+-skip "$SKIP"} ./$PKG/ 2>&1 | tail -2)
 echo "$R2" | grep -q "^ok" && D2=pass || D2=fail
-(cd $WT && go build ./$PKG/ 2>&1 | tail -2)
+rm -rf $WT/.overlay
 echo "$NAME: demo-without-patch=$D0 demo-with-patch=$D1 existing-tests-with-patch=$D2"
 RES=""
 for id in "$@"; do
